@@ -9,11 +9,18 @@
     JSON); each step of each request sequence runs the scratch-built tune2fs on a copy of a populated base image, runs the
     e2fsck tune2fs asks for, and logs {profile, op, rc, asked, before, after, changed superblock fields, fsck, tree_equal,
     consistent}.  TLC decides per line: rc = 0 => abstract(after) = Effect(op, before), changed fields inside
-    AllowedChange(op, before), required fields did change, requested e2fsck succeeded, e2fsck -fn clean, tree equal."""
+    AllowedChange(op, before), required fields did change, requested e2fsck succeeded, e2fsck -fn clean, tree equal.
+(3) Starting images = copies of the base images enriched by gen/c11_rich.py with the boundary catalogue of Tune.tla
+    (owners that fill more than one quota data block, extent trees of depth 2 / directory extent trees of depth 1, a full
+    dx root next to the full interior dx node of the base content); TLC decides with Tune!UniverseOK (census by the
+    independent reader) that every starting image contains every catalogue element.  Whenever a request changes what
+    checksums are computed from, or a quota file exists, the image is observed independently as well: the reader's
+    recomputation of every checksum (no object class may be stale) and the quota files parsed by an own parser of the
+    quota tree, compared by TLC with Tune!RealUsage of the inode table."""
 import os, sys, json, random, shutil, hashlib, struct, re, stat, itertools, time, concurrent.futures as cf
 from common import VERIF, fast_tmp, seed, die_broken, NPROC, tool_env
 from common import run as sh
-import build, tlc as T, tracecheck, mkbase
+import build, tlc as T, tracecheck, mkbase, c11_rich
 from evidence import Evidence, Verdict
 
 PID = "C11"
@@ -297,7 +304,7 @@ def _q(p):
 
 
 def tree_digest(b, image, work, tag="t"):
-    """Digest of the user-visible tree of `image`: names, types, sizes, content sha256, symlink targets, modes, uid/gid, mtime
+    """Digest of the user-visible tree of `image`: names, types, sizes (not of directories), content sha256, symlink targets, modes, uid/gid, mtime
     (regular files, directories), inode numbers, link structure, device numbers, extended attributes.
     Observer: the scratch-built debugfs (`rdump /` + a host-side walk, then `ls -p`, `stat` of special files and `ea_list`).
     Known debugfs defect: inline-data files are extracted padded to the inline area size -- identical before and after, so
@@ -347,7 +354,7 @@ def tree_digest(b, image, work, tag="t"):
     if rc != 0:
         return "", 0, "debugfs ls exit %d" % rc
     cur = None
-    special, allpaths = [], []
+    special, inos = [], []
     for ln in out.decode("latin1").splitlines():
         if ln.startswith("debugfs: ls -p "):
             cur = ln[len("debugfs: ls -p "):].strip().strip('"')
@@ -357,24 +364,32 @@ def tree_digest(b, image, work, tag="t"):
             # /ino/mode/uid/gid/name/size/
             if len(parts) >= 7:
                 ino, mode, uid, gid, name, size = parts[1], parts[2], parts[3], parts[4], parts[5], parts[6]
+                if ino == "0":
+                    continue                  # an unused directory entry (empty leaf block left by a re-index) names no file
                 if name in (".", ".."):
                     if name == "." or cur == "/":
                         ents.append(("d.", cur, name, ino, mode, uid, gid))
+                        if cur == "/" and name == ".":
+                            inos.append(ino)
                     continue
                 path = cur.rstrip("/") + "/" + name
-                ents.append(("E", path, ino, mode, uid, gid, size))
-                allpaths.append(path)
                 try:
                     m = int(mode, 8)
                 except ValueError:
                     m = 0
+                # the size of a DIRECTORY is representation, not content: an index that has to grow by a level (a full dx
+                # root loses one slot to the checksum tail) legitimately adds a block
+                ents.append(("E", path, ino, mode, uid, gid, "" if stat.S_ISDIR(m) else size))
+                inos.append(ino)
                 if stat.S_IFMT(m) in (stat.S_IFCHR, stat.S_IFBLK):
-                    special.append(path)
+                    special.append(ino)
+    # per INODE (the E entries bind every path to its inode number; hard links share one inode): device numbers, xattrs
+    uniq = sorted(set(inos), key=int)
     with open(cmds, "w") as f:
-        for p in special:
-            f.write("stat %s\n" % _q(p))
-        for p in ["/"] + allpaths:
-            f.write("ea_list %s\n" % _q(p))
+        for i in sorted(set(special), key=int):
+            f.write("stat <%s>\n" % i)
+        for i in uniq:
+            f.write("ea_list <%s>\n" % i)
     rc, out, err = sh([dbg, "-f", cmds, image], env=env, timeout=300)
     if rc != 0:
         return "", 0, "debugfs stat/ea_list exit %d" % rc
@@ -394,6 +409,9 @@ def tree_digest(b, image, work, tag="t"):
             ents.append(("xa", cur[8:], ln.strip()))
     if rderr:
         ents.append(("rdump-stderr", rderr.decode("latin1")[:2000]))
+    if os.environ.get("VERIF_C11_DUMPTREE"):
+        with open(os.path.join(os.environ["VERIF_C11_DUMPTREE"], "tree_%s_%d.json" % (tag, time.time_ns())), "w") as f:
+            f.write("\n".join(json.dumps(e) for e in sorted(ents, key=lambda e: json.dumps(e))))
     h = hashlib.sha256(json.dumps(sorted(ents, key=lambda e: json.dumps(e))).encode()).hexdigest()
     return h, len(ents), ""
 
@@ -423,8 +441,8 @@ def meta_changed(img0, img1, sb):
     u32 = lambda o: struct.unpack_from("<I", sb, o)[0]
     bs = 1024 << u32(0x18)
     first, bpg = u32(0x14), u32(0x20)
-    d0 = open(img0, "rb").read()
-    d1 = open(img1, "rb").read()
+    d0 = img0 if isinstance(img0, bytes) else open(img0, "rb").read()
+    d1 = img1 if isinstance(img1, bytes) else open(img1, "rb").read()
     if len(d0) != len(d1):
         return True
     if d0 == d1:
@@ -444,29 +462,64 @@ def meta_changed(img0, img1, sb):
     return False
 
 
+CSUM_KEY_FIELDS = {"s_uuid", "s_checksum_seed", "s_inode_size", "s_checksum_type"}
+CSUM_KEY_FEATS = {"metadata_csum", "uninit_bg", "metadata_csum_seed", "dir_index"}
+QUOTA_FIELDS = {"s_usr_quota_inum", "s_grp_quota_inum", "s_prj_quota_inum", "s_free_blocks_count", "s_free_blocks_hi", "s_free_inodes_count", "s_inode_size"}
+
+
+def obs_wanted(line):
+    """(observe checksums, observe quota): when the image is observed independently as well (a superset of Trace_Tune!CsumDue /
+    QuotaDue, which TLC enforces).  Checksums: the request touched a superblock field or feature that checksums are computed
+    from.  Quota: quota files exist, metadata was rewritten and the request is a quota request or changed the free block /
+    inode counts, the quota inode numbers or the inode size (the files or the usage may have changed)."""
+    csum = bool(CSUM_KEY_FIELDS & set(line["changed"])) or bool((set(line["before"]["feats"]) ^ set(line["after"]["feats"])) & CSUM_KEY_FEATS)
+    op = line["op"]
+    quota = (bool(line["after"]["quota"]) and line["nontrivial"] == 1 and
+             (bool(QUOTA_FIELDS & set(line["changed"])) or op["k"] == "Q" or
+              (op["k"] == "O" and bool({"quota", "project"} & (set(op["on"]) | set(op["off"]))))))
+    return csum or quota, quota
+
+
+def observe_image(img, want_quota):
+    """gen/c11_rich.py observe() in a process of its own (the reader is pure python: threads would serialise on the GIL)"""
+    rc, out, err = sh([sys.executable, os.path.join(VERIF, "gen", "c11_rich.py"), "--observe", img, "1" if want_quota else "0"],
+                      timeout=300, env=dict(os.environ, PYTHONPATH=os.pathsep.join([os.path.join(VERIF, d) for d in ("lib", "reader", "gen")])))
+    if rc != 0:
+        return {"fatal": "observer exit %d: %s" % (rc, err.decode("utf8", "replace")[-300:])}
+    try:
+        return json.loads(out.decode())
+    except ValueError as e:
+        return {"fatal": "observer output: %s" % e}
+
+
 def run_step(b, profile, op, img, work, prev_digest, tag):
     """Runs `op` on image `img` (modified in place when accepted; restored when refused).  Returns (line, new digest)."""
     env = tool_env(b, {"E2FSPROGS_UNDO_DIR": "none"})
     tune = os.path.join(b, "misc", "tune2fs")
     fsck = os.path.join(b, "e2fsck", "e2fsck")
     keep = img + ".pre"
-    shutil.copyfile(img, keep)
+    with open(img, "rb") as f:
+        d0 = f.read()                       # the image before the request: read once, compared in memory below
+    with open(keep, "wb") as f:
+        f.write(d0)
     sb0, a0 = abstract_img(img)
     line = {"e": "tune", "profile": profile, "op": op, "cmd": op_key(op), "rc": -1, "asked_f": 0, "asked_d": 0, "before": a0, "after": a0,
             "mid": a0, "changed": [], "fsck_req_rc": -1, "fsck_after_rc": -1, "tree_equal": -1, "consistent": -1, "nontrivial": 0, "sig": 0,
-            "out": "", "fsck_out": ""}
+            "noop": 0, "obs": 0, "qobs": 0, "stale": [], "qfile": [], "inodes": [], "out": "", "fsck_out": ""}
     rc, out, err = sh([tune] + op_argv(op) + [img], env=env, timeout=300, input=b"")
     txt = (out + err).decode("utf8", "replace")
     line["sig"] = 1 if rc < 0 or rc > 120 else 0
     line["rc"] = 0 if rc == 0 else (1 if 0 < rc <= 120 else 2)
     line["out"] = txt[-500:]
+    with open(img, "rb") as f:
+        d1 = f.read()
     if rc != 0:
-        line["restored"] = 0 if open(img, "rb").read() == open(keep, "rb").read() else 1
+        line["restored"] = 0 if d1 == d0 else 1
         os.replace(keep, img)
         return line, prev_digest
     line["asked_d"] = 1 if "Please run e2fsck -fD on the filesystem" in txt else 0
     line["asked_f"] = 1 if "Please run e2fsck -f on the filesystem" in txt else 0
-    if not (line["asked_d"] or line["asked_f"]) and open(img, "rb").read() == open(keep, "rb").read():
+    if not (line["asked_d"] or line["asked_f"]) and d1 == d0:
         # the request changed no byte of the image: same state as before, whose verdicts are already established
         line.update(fsck_after_rc=0, consistent=1, tree_equal=1, noop=1)
         os.unlink(keep)
@@ -482,6 +535,8 @@ def run_step(b, profile, op, img, work, prev_digest, tag):
         line["fsck_req_rc"] = r2
         if r2 not in (0, 1):
             line["fsck_out"] = (o2 + e2).decode("utf8", "replace")[-500:]
+        with open(img, "rb") as f:
+            d1 = f.read()
     sb1, a1 = abstract_img(img)
     if sb1 is None:
         line["consistent"] = 0; line["tree_equal"] = 0; line["fsck_out"] = "superblock magic lost"
@@ -490,7 +545,8 @@ def run_step(b, profile, op, img, work, prev_digest, tag):
     line["after"] = a1
     line["changed"] = changed_fields(sb0, sb1)
     line["changed_mid"] = changed_fields(sb0, sbm)
-    line["nontrivial"] = 1 if meta_changed(keep, img, sb0) else 0
+    line["nontrivial"] = 1 if meta_changed(d0, d1, sb0) else 0
+    d0 = d1 = None
     r3, o3 = consistent(b, img)
     line["fsck_after_rc"] = r3
     line["consistent"] = 1 if r3 == 0 else 0
@@ -502,6 +558,14 @@ def run_step(b, profile, op, img, work, prev_digest, tag):
         line["tree_err"] = derr
     else:
         line["tree_equal"] = 1 if dg == prev_digest else 0
+    want, want_quota = obs_wanted(line)
+    if want:
+        o = observe_image(img, want_quota)
+        if "fatal" in o:
+            line["obs"] = -1                     # the reader cannot read the image: unknown, never a verdict (listed in evidence)
+            line["obs_err"] = o["fatal"]
+        else:
+            line.update(obs=1, qobs=1 if want_quota else 0, stale=o["stale"], qfile=o["qfile"], inodes=o["inodes"])
     os.unlink(keep)
     return line, (dg if not derr else prev_digest)
 
@@ -556,7 +620,27 @@ def load_universe(work):
     keys = [op_key(o) for o in allops]
     if len(set(keys)) != len(keys):
         die_broken("request catalogue has duplicate command lines")
-    return allops, structural, pair, triples
+    return allops, structural, pair, triples, u["catalogue"]
+
+
+def image_params(path):
+    """what the catalogue builder needs to know about a starting image (own superblock parser)"""
+    sb, a = abstract_img(path)
+    u32 = lambda o: struct.unpack_from("<I", sb, o)[0]
+    feats = set(a["feats"])
+    return {"bs": a["bs"], "csum": 1 if "metadata_csum" in feats else 0, "extent": 1 if "extent" in feats else 0,
+            "dir_index": 1 if "dir_index" in feats else 0, "isz": a["isz"],
+            "cluster": (1024 << u32(0x1C)) if "bigalloc" in feats else a["bs"]}
+
+
+def rich_universe(b, basedir, profiles, cat):
+    """The enriched starting images (directory, census per profile); a profile that cannot be built breaks the check."""
+    params = {p: image_params(os.path.join(basedir, p + ".img")) for p in profiles}
+    richdir, info = c11_rich.rich_images(b, basedir, profiles, params, cat)
+    badp = {p: i.get("why", "?") for p, i in info.items() if not i.get("ok")}
+    if badp:
+        die_broken("the catalogue content could not be added to the starting image(s): %s" % json.dumps(badp)[:1500])
+    return richdir, {p: info[p]["content"] for p in profiles}
 
 
 def excluded(profile, ops):
@@ -599,8 +683,9 @@ def _run_lines(args):
     r = T.tlc(module, cfg, workers=1, timeout=timeout, env={"TRACE": path}, xmx="3g")
     bad = [int(x) for x in re.findall(r'<<"BADLINE", (\d+)>>', r.out)]
     div = [int(x) for x in re.findall(r'<<"DIVERGE", (\d+)>>', r.out)]
+    unobs = [int(x) for x in re.findall(r'<<"UNOBSERVED", (\d+)>>', r.out)]
     complete = (r.rc == 0 and r.violated is None and r.error is None)
-    return dict(bad=bad, div=div, complete=complete, error=r.error or r.violated, tail=r.out[-2500:], distinct=r.distinct, generated=r.generated)
+    return dict(bad=bad, div=div, unobs=unobs, complete=complete, error=r.error or r.violated, tail=r.out[-2500:], distinct=r.distinct, generated=r.generated)
 
 
 def validate_lines(lines, cfg, work, chunk=150, timeout=900, tag="l"):
@@ -616,18 +701,19 @@ def validate_lines(lines, cfg, work, chunk=150, timeout=900, tag="l"):
         tasks.append((module, cfg, p, len(part), timeout)); spans.append(i)
     with cf.ThreadPoolExecutor(max_workers=4) as ex:
         res = list(ex.map(_run_lines, tasks))
-    bad, div, broken, d, g = [], [], [], 0, 0
+    bad, div, unobs, broken, d, g = [], [], [], [], 0, 0
     for base, r in zip(spans, res):
         d += r["distinct"]; g += r["generated"]
         if not r["complete"]:
             broken.append(r); continue
         bad += [base + k - 1 for k in r["bad"]]
         div += [base + k - 1 for k in r["div"]]
-    return dict(bad=sorted(set(bad)), div=sorted(set(div)), broken=broken, distinct=d, generated=g)
+        unobs += [base + k - 1 for k in r["unobs"]]
+    return dict(bad=sorted(set(bad)), div=sorted(set(div)), unobs=sorted(set(unobs)), broken=broken, distinct=d, generated=g)
 
 
 TRACE_KEYS = ("e", "profile", "op", "cmd", "rc", "asked_f", "asked_d", "before", "mid", "after", "changed", "fsck_req_rc", "fsck_after_rc",
-              "tree_equal", "consistent", "nontrivial", "seq", "step")
+              "tree_equal", "consistent", "nontrivial", "seq", "step", "noop", "obs", "qobs", "stale", "qfile", "inodes")
 
 
 def why_bad(l):
@@ -635,18 +721,25 @@ def why_bad(l):
     if l["fsck_after_rc"] != 0: w.append("e2fsck -fn exit %d" % l["fsck_after_rc"])
     if l["tree_equal"] != 1: w.append("tree changed" + (" (%s)" % l["tree_err"] if l.get("tree_err") else ""))
     if (l["asked_f"] or l["asked_d"]) and l["fsck_req_rc"] not in (0, 1): w.append("requested e2fsck exit %d" % l["fsck_req_rc"])
+    if l.get("obs") == 1:
+        if l["stale"]: w.append("stale checksums (independent reader) in object classes %s" % l["stale"])
+        for q in l["qfile"]:
+            if q["err"]: w.append("%s quota file damaged: %s" % (q["t"], q["err"][:4]))
+        qt = {q["t"] for q in l["qfile"]}
+        if l["qobs"] and qt != set(l["after"]["quota"]): w.append("quota files parsed %s, superblock names %s" % (sorted(qt), l["after"]["quota"]))
+        if l["qfile"] and not w: w.append("quota usage recorded in a quota file may differ from the usage of the inode table (Tune!RealUsage)")
     if not w:
         d = {k: [l["before"][k], l["mid"][k], l["after"][k]] for k in l["before"] if not (l["before"][k] == l["mid"][k] == l["after"][k])}
         w.append("superblock delta differs from Expected(op): changed fields %s, abstract delta %s" % (l["changed"], json.dumps(d, sort_keys=True)[:400]))
     return "; ".join(w)
 
 
-def model_check(tier, ev, vd, basedir, profiles, work):
+def model_check(tier, ev, vd, basedir, profiles, work, content):
     pf = os.path.join(work, "profiles.ndjson")
     with open(pf, "w") as f:
         for p in profiles:
             sb, a = abstract_img(os.path.join(basedir, p + ".img"))
-            f.write(json.dumps({"profile": p, "state": a}, sort_keys=True) + "\n")
+            f.write(json.dumps({"profile": p, "state": a, "content": content[p]}, sort_keys=True) + "\n")
     mod = os.path.join(SPEC, "MC_Tune.tla")
     cfg = os.path.join(SPEC, "MC_Tune.cfg" if tier == "thorough" else "MC_Tune_quick.cfg")
     r = T.tlc(mod, cfg, workers=4, timeout=2400, env={"PROFILES": pf}, xmx="4g")
@@ -654,6 +747,8 @@ def model_check(tier, ev, vd, basedir, profiles, work):
     if r.violated:
         vd.violation("model:" + r.violated, "Tune model: %s violated with the repaired behaviour" % r.violated, {"tlc": r.out[-4000:]})
     elif not r.ok:
+        if "UniverseOK" in r.out or "Assumption" in r.out:
+            die_broken("a starting image lacks an element of the boundary catalogue (Tune!UniverseOK): %s\n%s" % (json.dumps(content)[:1500], r.out[-1200:]))
         die_broken("TLC failed on MC_Tune: %s\n%s" % (r.error, r.out[-1500:]))
     # negative control: the literal (unrepaired) behaviour must violate the invariants -- the invariants are not vacuous
     ces = []
@@ -691,9 +786,10 @@ def run(tier):
         profiles = sorted(p for p, i in meta.items() if i.get("ok"))
         if len(profiles) < 10:
             die_broken("only %d usable base images: %s" % (len(profiles), {p: i.get("fsck_out", i.get("mke2fs_err", ""))[-200:] for p, i in meta.items() if not i.get("ok")}))
-        allops, structural, pair, triples = load_universe(work)
+        allops, structural, pair, triples, cat = load_universe(work)
+        basedir, content = rich_universe(b, basedir, profiles, cat)       # from here on: the enriched copies
         with cf.ThreadPoolExecutor(max_workers=2) as bg:
-            mc = bg.submit(model_check, tier, ev, vd, basedir, profiles, work)
+            mc = bg.submit(model_check, tier, ev, vd, basedir, profiles, work, content)
             rng = random.Random(seed())
             seqs = sequences(tier, profiles, allops, structural, pair, triples, rng)
             digs = {}
@@ -716,6 +812,10 @@ def run(tier):
         _t("trace TLC", t_val)
         if out["broken"]:
             die_broken("TLC failed on a trace chunk: %s\n%s" % (out["broken"][0]["error"], out["broken"][0]["tail"][-1500:]))
+        if out["unobs"]:
+            u = lines[out["unobs"][0]]
+            die_broken("%d line(s) lack the independent observation Trace_Tune!ObsDue requires, first: %s / %s (%s)"
+                       % (len(out["unobs"]), u["profile"], u["cmd"], u.get("obs_err", "observation rule of checks/c11.py too narrow")))
         ev.cov["states"] += out["distinct"]; ev.cov["transitions"] += out["generated"]
         bad = set(out["bad"])
         # confirmation: re-run every behaviour that contains a rejected line and validate the re-runs again (one TLC batch)
@@ -762,7 +862,11 @@ def run(tier):
             if l["nontrivial"]:
                 ev.nontrivial((l["profile"], l["cmd"], tuple(l["before"]["feats"]), l["before"]["uuid"], l["before"]["isz"]))
         ev.cov["pairs_reduced_to_singles"] = sum(1 for l in lines if l.get("pruned"))
-        ev.cov["rule"] = ("universe = Tune!AllOps (%d requests) x %d populated base images, every ordering of Tune!TripleSeeds (%d sets), ordered pairs over "
+        ev.cov["independent_observations"] = sum(1 for l in lines if l["obs"] == 1)
+        ev.cov["quota_files_compared_with_inode_table"] = sum(len(l["qfile"]) for l in lines if l["obs"] == 1 and l["qobs"] == 1)
+        ev.cov["observations_unreadable"] = sorted({l["profile"] + "|" + l["cmd"] + ": " + l["obs_err"] for l in lines if l.get("obs_err")})[:20]
+        ev.cov["starting_image_census"] = content
+        ev.cov["rule"] = ("universe = Tune!AllOps (%d requests) x %d populated base images enriched with Tune's boundary catalogue (UniverseOK decided by TLC), every ordering of Tune!TripleSeeds (%d sets), ordered pairs over "
                           "Tune!PairOps (%d requests) (quick: structural requests on every profile, tunables on 3 seeded profiles, seeded sample of pairs and "
                           "triples); a pair whose first request is refused or changes no byte of the image is the single second request; non-trivial"
                           % (len(allops), len(profiles), len(triples), len(pair)) + " = accepted request that rewrote at least one "
@@ -773,6 +877,11 @@ def run(tier):
                        "features_before": l["before"]["feats"], "features_after": l["after"]["feats"], "fsck_after_rc": l["fsck_after_rc"], "tree_equal": l["tree_equal"]})
         ev.assumptions = [
             "every request runs on an unmounted image that was checked at the fixed fake time (check_fsck_needed preconditions hold unless a previous request of the sequence broke them: -E force_fsck)",
+            "starting images = copies of gen/mkbase.py's base images + the catalogue content of Tune.tla (gen/c11_rich.py: owners beyond one quota data block incl. project ids, "
+            "extent tree depth 2, directory extent tree depth 1, full dx root; a full dx node is required only where it needs <= Tune!MaxDirEntries names, i.e. 1 KiB blocks)",
+            "independent observation (reader checksum recomputation = Ext4Abs!Csums per object class; own quota-tree parser vs Tune!RealUsage) on every accepted request that changes "
+            "what checksums are computed from or rewrites metadata while quota files exist (Trace_Tune!ObsDue, enforced by TLC); an image the reader cannot read is unknown, not a violation",
+            "directory sizes and unused directory entries (inode 0) are representation, not tree content (a re-index may add an index level / leave an empty leaf)",
             "tree equality observer = scratch-built debugfs (rdump + ls -p + stat + ea_list digest); consistency observer = e2fsck -fn exit 0 (both isolated in one function each, to be swapped for reader/ext4read.py)",
             "requests that enable quota accounting on profile `inline` are not run: e2fsck does not count inline-data symlinks in quota usage (pass1.c), so the interim oracle rejects correct quota files there",
             "a refused request carries no obligation (DESIGN 8 rule 1); the image is restored and the sequence continues; refusals that the model does not predict are listed in coverage.model_divergences_on_acceptance",
@@ -791,6 +900,8 @@ def replay(path):
     try:
         b = build.build()
         basedir, meta = mkbase.base_images(b)
+        cat = load_universe(work)[4]
+        basedir, content = rich_universe(b, basedir, sorted(q for q, i in meta.items() if i.get("ok")), cat)
         p, ops = rp["profile"], rp["ops"]
         dg, n, err = tree_digest(b, os.path.join(basedir, p + ".img"), work, "base")
         lines = run_sequence((b, basedir, p, ops, work, 0, dg))
